@@ -463,6 +463,15 @@ def m_seq(kind):
             rows[k].pop("calculation", None)
             rows.insert(0, {"type": "select_multiple_from_file f.xml", "name": "ff0", "label": "F"})
             return E(k + 1, False, ["label"])
+        if kind in ("bg-trigger-ambiguous", "bg-trigger-ambiguous-3"):
+            # a background-geopoint whose trigger names a question that exists in two (three) sections
+            if not q:
+                raise Skip
+            rows[k] = {"type": "background-geopoint", "name": rows[k]["name"], "trigger": "${z}", "_n": i}
+            rows.insert(0, {"type": "text", "name": "z", "label": "z"})
+            for c in range(1, 3 if kind.endswith("3") else 2):
+                rows.extend([{"type": "begin group", "name": f"zg{c}", "label": "zg"}, {"type": "text", "name": "z", "label": "z"}, {"type": "end group"}])
+            return E(None, False, ["z"])
         if kind in ("calc-without-after-calc", "calc-without-after-calc-bare"):
             # a calculate row without calculation is refused whatever the rows before it carried (an earlier calculation, other bind cells)
             if not q:
@@ -547,6 +556,8 @@ def m_seq(kind):
 
 
 CATALOGUE = {
+    "bg-trigger-ambiguous": m_seq("bg-trigger-ambiguous"),
+    "bg-trigger-ambiguous-3": m_seq("bg-trigger-ambiguous-3"),
     "calc-without-after-calc": m_seq("calc-without-after-calc"),
     "calc-without-after-calc-bare": m_seq("calc-without-after-calc-bare"),
     "choice-badref-label-equals-name": m_choice("badref-label-equals-name"),
